@@ -19,8 +19,8 @@ META = {
              '>= 1 cached segment and misses >= 1'),
     'require': {'model': 3000, 'cache-transparent': 6000, 'cache-audit': 6000, 'all-breakpoints': 300, 'global-rmse': 600,
                 'mip': 300, 'nontrivial': 1500},
-    'scale': {'quick': 1, 'thorough': 15},
-    'quick_cases': 900, 'thorough_cases': 16000,
+    'scale': {'quick': 1, 'thorough': 45},
+    'quick_cases': 900, 'thorough_cases': 48000,
     'assumptions': ['relative metrics (smape, rpd, rmspe) are compared numerically only on curves with min y >= 1e-3 max y '
                     '(they are ill-conditioned at y = 0); structural clauses are asserted everywhere',
                     'a cache shared across metrics or curves is outside the property'],
